@@ -4,6 +4,8 @@ import EaselModel.Sqio.DriverLogic
 import EaselModel.Sqio.Agree
 import EaselModel.Sqio.Refine
 import EaselModel.Sqio.Spec
+import EaselModel.Sqio.Sim
+import EaselModel.Sqio.Fold
 /-! # C04 — all ways of reading a sequence file agree with each other and with the file
 
 Property theorems only (proofs are glue on `Sqio/Windows.lean`, `Sqio/Refine.lean`, `Sqio/Spec.lean`).
@@ -15,7 +17,8 @@ Read / ReadInfo / ReadSequence, true byte offsets, forward windows tile with con
 coordinates, reverse strand = reverse complement tiled the same way, independence of line layout, `read (WriteFasta r) = r`.
 Proved here for every input: the window schedule (forward and reverse) that `sqascii_ReadWindow` computes tiles `1..L`
 (`fwd_windows_tile`, `rev_windows_tile`); the byte stream seen through `nextchar` does not depend on the block size; the two
-single-step facts behind Read / ReadInfo agreement; the remaining clauses are tied by the exact differential run against the
+single-step facts behind Read / ReadInfo agreement; `header_fasta` returns the same record fields for every pair of block sizes
+(simulation invariant); `seebuf` is a byte fold and buffer cuts are invisible to it; the remaining clauses are tied by the exact differential run against the
 implementation and by the agreement monitors (see `props/c04.py`), and are listed `_partial` where a weaker theorem stands in. -/
 namespace EaselModel.Props.C04
 open EaselModel.Sqio EaselModel.Sqio.Windows
@@ -84,6 +87,45 @@ theorem nextchar_block_size_independent_partial (a : Ascii) (c : UInt8) (h : Ref
 theorem writeFasta_keeps_residues_partial (res : List UInt8) (hnl : ∀ x ∈ res, x ≠ chNl) :
     (chunk60 res (res.length + 1)).filter (fun x => x != chNl) = res :=
   Spec.chunk60_filter (res.length + 1) res (Nat.lt_succ_self _) hnl
+
+/-- **Block-size independence starts at open / Position**: same file, same `FILE*` position, nothing buffered, any two block sizes
+    ⇒ after the first `loadbuf` the handles are similar (same absolute cursor, same bookkeeping) and the status is the same. -/
+theorem open_block_size_independent (a1 a2 : Ascii) (h1 : Refine.Pre a1) (h2 : Refine.Pre a2)
+    (hp : Sim.payload a1 = Sim.payload a2) (hf : a1.fpos = a2.fpos) :
+    (loadbuf a1).2 = (loadbuf a2).2 ∧ Sim.Sim (loadbuf a1).1 (loadbuf a2).1 := Sim.loadbuf_sim a1 a2 h1 h2 hp hf
+
+/-- **`header_fasta` is block-size independent** (every file, every pair of block sizes `B₁, B₂ ≥ 1`): from similar handles at the
+    start of a record it returns the same status and the same `ESL_SQ` (name, description, `roff`, `hoff`, `doff`) and leaves similar
+    handles — i.e. the same absolute position, line number and line-geometry state. Proved by a simulation through `nextchar` and
+    every `while (status == eslOK && p(c)) status = nextchar(...)` loop of the parser. -/
+theorem header_fasta_block_size_independent (a1 a2 : Ascii) (sq : Sq) (h : Sim.Sim a1 a2) (l1 : Sim.Live a1) (l2 : Sim.Live a2) :
+    (headerFasta a1 sq).2 = (headerFasta a2 sq).2 ∧ Sim.Sim (headerFasta a1 sq).1 (headerFasta a2 sq).1 :=
+  Sim.headerFasta_sim a1 a2 sq h l1 l2
+
+/-- **`seebuf` is a byte-by-byte fold** over the bytes of the buffer (status, residue count, stop position, line number and the
+    bytes/residues-per-line tracker): its batched bookkeeping (`lasteol`, `nres2`) equals the one-byte-at-a-time bookkeeping. -/
+theorem seebuf_is_byte_fold (a : Ascii) (maxn : Option Nat) (hr : ∀ i, i < a.nc → ∃ x, a.bufGet i = some x) (hok : Fold.Track.Ok a.trk) :
+    let mx := match maxn with | none => a.nc | some m => m
+    let f := Fold.scanBytes a.inmap mx (Fold.bufList a a.bpos) ⟨a.trk, a.linenumber, 0⟩ a.bpos
+    (seebuf a maxn).2.st = f.2.2 ∧ (seebuf a maxn).2.endpos = f.2.1 ∧ (seebuf a maxn).2.nres = f.1.nres ∧
+    (seebuf a maxn).1.linenumber = f.1.ln ∧
+    ((seebuf a maxn).2.st ≠ .eformat → (seebuf a maxn).2.st ≠ .fault → (seebuf a maxn).1.trk = f.1.trk) :=
+  Fold.seebuf_fold a maxn hr hok
+
+/-- **Where a buffer ends is invisible to the data scan**: folding over `l₁ ++ l₂` is folding over `l₁` and, unless that stopped or
+    reached the residue limit, continuing over `l₂` with the state reached.
+    `read_block_size_independent_partial`: the composition of this with the buffer loop of `sqascii_Read` (residues appended, `L`,
+    `eoff`) into "Read returns the same record for every B" is tied by the differential run over B ∈ {1,2,3,7,64,4096,random}. -/
+theorem buffer_cut_invisible_partial (inmap : Bytes) (maxn : Nat) (l1 l2 : List UInt8) (s : Fold.SS) (k : Nat) :
+    Fold.scanBytes inmap maxn (l1 ++ l2) s k =
+      (if (Fold.scanBytes inmap maxn l1 s k).2.2 = .ok ∧ (Fold.scanBytes inmap maxn l1 s k).2.1 = k + l1.length then
+         Fold.scanBytes inmap maxn l2 (Fold.scanBytes inmap maxn l1 s k).1 (k + l1.length)
+       else Fold.scanBytes inmap maxn l1 s k) := Fold.scanBytes_append inmap maxn l1 l2 s k
+
+/-- non-vacuity of the simulation: the same 6-byte file opened with B = 2 and with B = 5 -/
+example : Sim.Sim (loadbuf { file := #[62, 97, 10, 65, 67, 10], B := 2 }).1 (loadbuf { file := #[62, 97, 10, 65, 67, 10], B := 5 }).1 :=
+  (Sim.loadbuf_sim { file := #[62, 97, 10, 65, 67, 10], B := 2 } { file := #[62, 97, 10, 65, 67, 10], B := 5 }
+    ⟨rfl, by decide, by decide, by decide, by decide⟩ ⟨rfl, by decide, by decide, by decide, by decide⟩ rfl rfl).2
 
 /-- non-vacuity: windows of W = 5, C = 2 over a 12-residue sequence: 1..5, 4..10, 9..12 (as the real reader returns) -/
 example : fwdNext (fwdFirst 5) 2 5 5 = ⟨4, 10, 2, 7⟩ ∧ fwdNext ⟨4, 10, 2, 7⟩ 2 10 2 = ⟨9, 12, 2, 4⟩ := by decide
